@@ -733,6 +733,10 @@ static Coefficient rnd_gw_off(Rng& r, const Coefficient& P) {
     case 0: off += (P / 256) * r.range(-600, 600); break;
     case 1: off += P / 2 * r.range(-3, 3); break;          // around +-2^(w-1), +-2^w
     case 2: off += P * r.range(-2, 2) - r.range(0, 1); break;
+    case 3: {                                               // exactly at / one beyond an end of either range
+      const Coefficient anchors[8] = {Coefficient(0), Coefficient(-1), Coefficient(P - 1), P,
+                                      Coefficient(-P / 2), Coefficient(-P / 2 - 1), Coefficient(P / 2 - 1), Coefficient(P / 2)};
+      off = anchors[r.below(8)]; break; }
     default: break;
   }
   return off;
